@@ -300,9 +300,11 @@ class ExprMixin:
             t = self.truthy(self.ev1(e.test, st), st)
             a, b = self.ev1(e.body, st), self.ev1(e.orelse, st)
             ty = self.join_types([a.ty, b.ty])
-            a, b = self.coerce(a, ty, st), self.coerce(b, ty, st)
-            yield SV(ty, z3.If(t, a.z, b.z)), st
-            return
+            if self.specmode or ty.kind in ('int', 'bool'):
+                a, b = self.coerce(a, ty, st), self.coerce(b, ty, st)
+                yield SV(ty, z3.If(t, a.z, b.z)), st
+                return
+            # code mode, non-arithmetic result: split the path (keeps ite out from under uninterpreted symbols)
         for c, s in self.ev(e.test, st):
             t = self.truthy(c, s)
             s1, s2 = s.copy(), s.copy()
@@ -585,6 +587,14 @@ class ExprMixin:
             self.assume_typed(res, st, depth=0)
             yield res, st
             return
+        if f is None:
+            # attribute declared on a subclass only: implicit downcast (obligation in code, assumption-free in specs)
+            owners = [c for c in self.reg.subclasses(cname) if attr in self.reg.classes[c].fields or attr in self.reg.classes[c].consts]
+            if len(owners) >= 1:
+                sub = owners[0]
+                self.check(st, self.isinstance1(v, sub, st, node), 'AttributeError', 'downcast', node)
+                yield from self.getattr(SV(TObj(sub), v.z), attr, st, node)
+                return
         m = self.reg.find_method(cname, attr)
         if m is not None and m.kind == 'property':
             yield from self.apply_contract(m, [v], {}, st, node)
